@@ -3,6 +3,7 @@ package fam
 import (
 	"context"
 	"fmt"
+	"os"
 	"sort"
 	"sync"
 	"time"
@@ -10,6 +11,8 @@ import (
 	"github.com/gittuf/gittuf/internal/attestations"
 	"github.com/gittuf/gittuf/internal/policy"
 	"github.com/gittuf/gittuf/pkg/githash"
+	"github.com/gittuf/gittuf/pkg/gitinterface"
+	"github.com/gittuf/gittuf/pkg/gitstore"
 	"github.com/gittuf/gittuf/pkg/rsl"
 	"github.com/gittuf/gittuf/verifharness/conc"
 	"github.com/gittuf/gittuf/verifharness/hx"
@@ -64,12 +67,15 @@ type gateMsg struct {
 }
 
 type wWriter struct {
-	name        string
-	h           *memstore.Handle
-	jobs        []wJob
-	toSched     chan gateMsg
-	release     chan struct{}
-	inCommitRef string
+	name     string
+	h        *memstore.Handle // in-memory backend only
+	st       gitstore.Storer  // what the real code is given
+	walk     func() []proj.Entry
+	nonEntry func() githash.Hash
+	split    func(ref string) // real backend: called from gitinterface's yield hook
+	jobs     []wJob
+	toSched  chan gateMsg
+	release  chan struct{}
 }
 
 func gateClass(method, arg string) string {
@@ -98,7 +104,7 @@ func gateClass(method, arg string) string {
 func uniqueTarget(w string, j int) githash.Hash { return conc.FakeHash(fmt.Sprintf("job-%s-%d", w, j)) }
 
 func runJob(ctx context.Context, wr *wWriter, j int, jb wJob, ids []githash.Hash, rootState *policy.State) error {
-	h := wr.h
+	h := wr.st
 	switch jb.Op {
 	case "ref":
 		return rsl.NewReferenceEntry(jb.Ref, uniqueTarget(wr.name, j)).Commit(h, false)
@@ -106,7 +112,7 @@ func runJob(ctx context.Context, wr *wWriter, j int, jb wJob, ids []githash.Hash
 		return rsl.NewPropagationEntry(jb.Ref, uniqueTarget(wr.name, j), jb.Up, conc.FakeHash("upstream-entry")).Commit(h, false)
 	case "ann":
 		var tg []githash.Hash
-		cur, _ := proj.WalkRSL(h.S) // positions are resolved against the log as it is when the job starts
+		cur := wr.walk() // positions are resolved against the log as it is when the job starts
 		for _, p := range jb.Tg {
 			if p >= 1 && p <= len(cur) {
 				tg = append(tg, mustHash(cur[p-1].ID))
@@ -114,9 +120,7 @@ func runJob(ctx context.Context, wr *wWriter, j int, jb wJob, ids []githash.Hash
 				tg = append(tg, ids[p])
 			} else if p == 0 {
 				// an existing commit that is not an RSL entry (the same one every time)
-				empty, _ := h.S.Handle().EmptyTree()
-				nc, _ := h.S.MakeCommitWithSigAt(empty, nil, "an ordinary commit, not an RSL entry", "", 1600000000)
-				tg = append(tg, nc)
+				tg = append(tg, wr.nonEntry())
 			} else {
 				tg = append(tg, conc.FakeHash(fmt.Sprintf("not-an-entry-%d", p)))
 			}
@@ -135,7 +139,7 @@ func runJob(ctx context.Context, wr *wWriter, j int, jb wJob, ids []githash.Hash
 }
 
 // replayWriters runs one scenario under its schedule.
-func replayWriters(scn wScn, seed int64) wObs {
+func replayWriters(scn wScn, seed int64, realDir string) wObs {
 	obs := wObs{Followed: true, Res: map[string][]string{}, Bref: map[string]int{}, Gates: [][]string{}}
 	s := memstore.New()
 	// initial chain
@@ -160,24 +164,42 @@ func replayWriters(scn wScn, seed int64) wObs {
 	writers := map[string]*wWriter{}
 	var wg sync.WaitGroup
 	ctx := context.Background()
+	emptyTree, _ := s.Handle().EmptyTree()
+	nonEntryID, _ := s.MakeCommitWithSigAt(emptyTree, nil, "an ordinary commit, not an RSL entry", "", 1600000000)
+	if realDir != "" {
+		if err := newGitRepo(realDir); err != nil {
+			return wObs{Why: "setup: " + err.Error()}
+		}
+		if err := s.ExportTo(realDir + "/.git"); err != nil {
+			return wObs{Why: "setup: " + err.Error()}
+		}
+	}
 	for _, name := range names {
-		wr := &wWriter{name: name, h: s.Handle(), jobs: scn.Jobs[name], toSched: make(chan gateMsg), release: make(chan struct{})}
+		wr := &wWriter{name: name, jobs: scn.Jobs[name], toSched: make(chan gateMsg), release: make(chan struct{})}
 		writers[name] = wr
-		wr.h.Inter = func(c memstore.Call) error {
-			cls := gateClass(c.Method, c.Arg)
+		wr.nonEntry = func() githash.Hash { return nonEntryID }
+		gate := func(method, arg string) {
+			cls := gateClass(method, arg)
 			if cls == "" || scn.Mode == "seq" {
-				return nil
+				return
 			}
 			wr.toSched <- gateMsg{w: wr.name, label: cls}
 			<-wr.release
-			return nil
 		}
-		wr.h.SplitCommit = func(ref string) {
-			if scn.Mode == "seq" {
-				return
+		if realDir == "" {
+			wr.h = s.Handle()
+			wr.st = wr.h
+			wr.walk = func() []proj.Entry { e, _ := proj.WalkRSL(s); return e }
+			wr.h.Inter = func(c memstore.Call) error { gate(c.Method, c.Arg); return nil }
+			wr.h.SplitCommit = func(ref string) { gate("split", ref) }
+		} else {
+			repo, err := gitinterface.LoadRepository(realDir)
+			if err != nil {
+				return wObs{Why: "setup: " + err.Error()}
 			}
-			wr.toSched <- gateMsg{w: wr.name, label: gateClass("split", ref)}
-			<-wr.release
+			wr.st = &gateStorer{Storer: repo, gate: gate}
+			wr.walk = func() []proj.Entry { e, _ := proj.WalkRSLGit(realDir); return e }
+			wr.split = func(ref string) { gate("split", ref) }
 		}
 	}
 	// each writer runs its jobs in order; before each job it waits for "start"
@@ -186,6 +208,10 @@ func replayWriters(scn wScn, seed int64) wObs {
 		wg.Add(1)
 		go func() {
 			defer wg.Done()
+			if wr.split != nil {
+				registerYield(wr.split)
+				defer unregisterYield()
+			}
 			for j, jb := range wr.jobs {
 				<-wr.release // "start"
 				err := runJob(ctx, wr, j+1, jb, ids, rootState)
@@ -297,10 +323,31 @@ func replayWriters(scn wScn, seed int64) wObs {
 	}
 	wg.Wait()
 	// project
-	entries, err := proj.WalkRSL(s)
+	var entries []proj.Entry
+	if realDir == "" {
+		entries, err = proj.WalkRSL(s)
+	} else {
+		entries, err = proj.WalkRSLGit(realDir)
+	}
 	if err != nil {
 		obs.Why += " walk: " + err.Error()
 		return obs
+	}
+	msgOf := func(id string) string {
+		if realDir == "" {
+			ci, err := s.CommitInfo(mustHash(id))
+			if err != nil {
+				return ""
+			}
+			return ci.Message
+		}
+		return proj.CommitMessageGit(realDir, id)
+	}
+	tipOf := func(ref string) githash.Hash {
+		if realDir == "" {
+			return s.RawRef(ref)
+		}
+		return mustHash(proj.RefTipGit(realDir, ref))
 	}
 	owner := map[string][2]any{}
 	for _, w := range names {
@@ -316,12 +363,12 @@ func replayWriters(scn wScn, seed int64) wObs {
 		obs.Chain = append(obs.Chain, we)
 	}
 	// ownership: by unique target (ref/prop), by message (annotations), by commit message (branch jobs)
-	assignOwners(s, entries, obs.Chain, names, writers)
+	assignOwners(msgOf, entries, obs.Chain, names, writers)
 	if scn.Mode == "seq" {
 		assignApplyOwners(obs.Chain, names, writers, obs.Res)
 	}
 	for _, r := range []string{"refs/gittuf/policy-staging", "refs/gittuf/attestations", "refs/gittuf/policy"} {
-		tip := s.RawRef(r)
+		tip := tipOf(r)
 		latest := ""
 		for _, e := range entries {
 			if (e.K == "ref" || e.K == "prop") && e.Ref == r {
@@ -361,7 +408,7 @@ func assignApplyOwners(chain []wEntry, names []string, writers map[string]*wWrit
 	}
 }
 
-func assignOwners(s *memstore.Store, entries []proj.Entry, chain []wEntry, names []string, writers map[string]*wWriter) {
+func assignOwners(msgOf func(id string) string, entries []proj.Entry, chain []wEntry, names []string, writers map[string]*wWriter) {
 	for i, e := range entries {
 		for _, w := range names {
 			for j, jb := range writers[w].jobs {
@@ -373,8 +420,7 @@ func assignOwners(s *memstore.Store, entries []proj.Entry, chain []wEntry, names
 					}
 				case "ann":
 					if e.K == "ann" {
-						ci, _ := s.CommitInfo(mustHash(e.ID))
-						if ci != nil && containsPEM(ci.Message, tag) {
+						if containsPEM(msgOf(e.ID), tag) {
 							chain[i].W, chain[i].J = w, j+1
 						}
 					}
@@ -382,7 +428,7 @@ func assignOwners(s *memstore.Store, entries []proj.Entry, chain []wEntry, names
 					// owned below (k-th successful apply <-> k-th policy entry)
 				case "branch":
 					if (e.K == "ref") && e.Ref == jb.Ref && e.Target != "" {
-						if ci, err := s.CommitInfo(mustHash(e.Target)); err == nil && trim(ci.Message) == tag {
+						if trim(msgOf(e.Target)) == tag {
 							chain[i].W, chain[i].J = w, j+1
 						}
 					}
@@ -393,7 +439,16 @@ func assignOwners(s *memstore.Store, entries []proj.Entry, chain []wEntry, names
 }
 
 // Writers replays writer scenarios (C03 sequential, C17 concurrent).
+// WritersReal replays a (small) seeded sample on real on-disk repositories through gitinterface.Repository.
+func WritersReal(scnPath, outPath string, seed int64, limit int) error {
+	return writersRun(scnPath, outPath, seed, limit, true)
+}
+
 func Writers(scnPath, outPath string, seed int64, limit int) error {
+	return writersRun(scnPath, outPath, seed, limit, false)
+}
+
+func writersRun(scnPath, outPath string, seed int64, limit int, real bool) error {
 	scns, err := hx.ReadNDJSONInto[wScn](scnPath)
 	if err != nil {
 		return err
@@ -422,7 +477,17 @@ func Writers(scnPath, outPath string, seed int64, limit int) error {
 		go func(i int) {
 			defer wg.Done()
 			defer func() { <-sem }()
-			out[i] = line{ID: i + 1, Scn: scns[i], Obs: replayWriters(scns[i], seed)}
+			dir := ""
+			if real {
+				d, err := os.MkdirTemp("", "verif-wr-")
+				if err != nil {
+					out[i] = line{ID: i + 1, Scn: scns[i], Obs: wObs{Why: "setup: " + err.Error()}}
+					return
+				}
+				defer os.RemoveAll(d)
+				dir = d
+			}
+			out[i] = line{ID: i + 1, Scn: scns[i], Obs: replayWriters(scns[i], seed, dir)}
 		}(i)
 	}
 	wg.Wait()
